@@ -29,3 +29,10 @@ void drv_sleep_for(future<void> *out, scheduler *s, long ms, const void *id) { n
 // interval(): instantiates the coroutine and with it the stop-callback lambda (a plain function in the IR)
 void drv_interval(generator<std::size_t> *out, scheduler *s, long ms, std::stop_token *t) { new(out) generator<std::size_t>(s->interval(std::chrono::milliseconds(ms), *t)); }
 }
+// ---- start(awaitable) / thread mode / thread-pool mode (added for the worker units): instantiates start<Awt>, start_in, worker_coro<false>,
+// worker_coro<true> and with them the worker's stop-callback lambda and its std::visit visitor (plain functions in the IR)
+extern "C" {
+int drv_start_future(scheduler *s, future<int> *f) { return s->start(*f); }
+void drv_start_thread(scheduler *s, std::thread *t) { s->start(*t); }
+void drv_start_pool(scheduler *s, thread_pool *p) { s->start(*p); }
+}
